@@ -4,7 +4,7 @@ output formats and both optimize settings and prints one JSON object per request
 request:  SHIPPED <name>          name in propositional small_theory substitution kore definedness
           GEN <json>              {"axioms":[term..], "proofs":[spec..], "notations":[...]}  (terms in pycodec wire form)
   proof spec: ["imp_refl", T] | ["dneg_intro", T] | ["bot_elim", T] | ["prop1_inst", T, T] | ["axiom", i]
-              | ["mp_axioms", i, j] | ["trans", spec, spec] | ["gen", spec, x] | ["top_intro"] | ["imp_provable", T, spec]
+              | ["sinst", spec, {id: T}] | ["mp_axioms", i, j] | ["trans", spec, spec] | ["gen", spec, x] | ["top_intro"] | ["imp_provable", T, spec]
 """
 import json
 import os
@@ -82,6 +82,8 @@ class GenMod(ProofExp):
             return self.prop.imp_transitivity(self.mk(s[1]), self.mk(s[2]))
         if k == 'gen':
             return self.exists_generalization(self.mk(s[1]), P.EVar(s[2]))
+        if k == 'sinst':      # the static ProofExp.instantiate (interpreter.instantiate with the given delta, possibly empty)
+            return self.instantiate(self.mk(s[1]), {int(key): T(v) for key, v in s[2].items()})
         if k == 'imp_provable':
             return self.prop.imp_provable(T(s[1]), self.mk(s[2]))
         raise ValueError(s)
